@@ -25,6 +25,7 @@ EXPLANATION = (
     "decide transitivity/trichotomy as laws, float ties or array semantics.")
 EXPLANATION += ' Also decided (rules added after the second round of seeded changes): the predicate that selects the bare-magnitude hash is `dimensionless` of the base form (what __eq__ uses against numbers); the per-object dimensionality memo read by __eq__/compare is validated against the units; no comparison calls an in-place conversion primitive.'
 EXPLANATION += ' Also decided (round 5, error discipline): __eq__ may answer False for a DimensionalityError of the conversion only where the dimensionalities are known to differ; for equal dimensionalities without a direct conversion (offset vs. delta units) it must compare root-unit magnitudes as the ordering does, otherwise every raise of the registry _convert chain is classified (dimension mismatch / invalid offset combination / same dimension = violation).'
+EXPLANATION += " Also decided (round 10): the field that records which units container the per-object dimensionality memo was computed for (the other side of the memo's validity test, found from that test) is written only by the dimensionality property itself; anywhere else only a reset to None is accepted - re-pointing it at the new units in ito() makes the stale dimensionality pass the validity test after an in-place conversion under a context."
 
 
 # ---------------------------------------------------------------- role-based helpers (also used by C06)
